@@ -142,3 +142,38 @@ func ZZH_C10_only_changes() {
 	}
 	zz.Assert("C10.root-ignores-read-history", zz.EqBytes(run(0), run(1)))
 }
+
+// ZZH_C10_cache_vs_db: the root of block N+1 is the same whether block N has already been
+// committed and the ledger reopened (cold cache, database reads) or block N is still only in
+// the account cache (flushed, commit outstanding).
+func ZZH_C10_cache_vs_db() {
+	v0 := []byte{zz.U8("v0")}
+	w := []byte{zz.U8("w")}
+	opN := zz.Choice("opN", 3) // block N: overwrite / delete / nothing
+	v1 := []byte{zz.U8("v1")}
+	run := func(deferCommit bool) []byte {
+		store := zz.NewStore()
+		cache, _ := NewAccountCache()
+		l := zzNewLedger(store, cache)
+		l.SetState(zzAddrs[0], []byte("a"), v0, nil)
+		zzCommit(l, 1)
+		switch opN {
+		case 0:
+			l.SetState(zzAddrs[0], []byte("a"), v1, nil)
+		case 1:
+			l.SetState(zzAddrs[0], []byte("a"), nil, nil)
+		}
+		acc, root := l.FlushDirtyData()
+		if !deferCommit {
+			if err := l.Commit(2, acc, root); err != nil {
+				panic(err)
+			}
+			cache2, _ := NewAccountCache()
+			l = zzNewLedger(store, cache2)
+		}
+		l.SetState(zzAddrs[0], []byte("a"), w, nil)
+		_, r := l.FlushDirtyData()
+		return r.Bytes()
+	}
+	zz.Assert("C10.root-same-through-cache-and-db", zz.EqBytes(run(true), run(false)))
+}
